@@ -159,6 +159,8 @@ def run(ch, config, res):
     srv.cap_variation = True
     with ch.scope("srvcfg"):
         srv.oauth_challenge_on_fail = ch.srv.flag("oauth_challenge_on_fail", 1, 2)
+        srv.digest_final_in_ok = ch.srv.flag("digest_final_in_ok", 1, 2)
+        srv.no_with_sasl_code = ch.srv.flag("no_with_sasl_code", 1, 2)
     creds_problem = [None]
 
     def auth_hook(conn, creds, ok):
@@ -204,7 +206,13 @@ def run(ch, config, res):
 
     srv.auth_hook = auth_hook
     if verdict == "forced-no":
-        srv.fault_hook = lambda conn, dec, scope: (F_NO if (not isinstance(dec, str) and dec.verb == b"AUTHENTICATE") else None)
+        with ch.scope("srvcfg"):
+            at_verdict = ch.srv.flag("no_at_verdict", 1, 2)
+        if at_verdict:
+            # refused at the very end of the exchange (possibly with final SASL data attached)
+            srv.fault_hook = lambda conn, dec, scope: (F_NO if dec == "<auth-verdict>" else None)
+        else:
+            srv.fault_hook = lambda conn, dec, scope: (F_NO if (not isinstance(dec, str) and dec.verb == b"AUTHENTICATE") else None)
     failure = None
 
     def attempt(client, scope, announced):
